@@ -66,6 +66,10 @@ pub struct World {
     /// differently (yields, copies, chunks) must stay correct and cancellation safe
     #[serde(default)]
     pub big_reply: Option<u8>,
+    /// the stray replies of this world are *repeats*: the server sends the reply it released
+    /// last a second time (while the first copy may still be parked for its owner)
+    #[serde(default)]
+    pub repeat_strays: bool,
 }
 
 type Tagged = Result<String, String>;
@@ -86,6 +90,10 @@ pub struct Trace {
     pub expected: Vec<Tagged>,
     pub dropped: Vec<bool>,
     pub stray_ids: Vec<String>,
+    /// requests whose reply the server sent twice
+    pub repeated: Vec<usize>,
+    /// requests awaited by a task that took the second copy of some reply off the transport
+    pub in_task_that_read_a_repeat: Vec<bool>,
     pub extra_result: Option<Tagged>,
     pub extra_expected: Option<Tagged>,
     pub out_of_order: bool,
@@ -446,6 +454,15 @@ pub fn run_world(w: &World) -> Result<Trace, String> {
             }
             Act::Stray => {
                 strays_left -= 1;
+                if let (true, Some(&i)) = (w.repeat_strays, release_order.last()) {
+                    let id = &received.iter().find(|(ri, _)| *ri == i).expect("released replies answer received requests").1;
+                    wire.push(reply_for(w.ops[i], id, &tags[i]));
+                    if !trace.repeated.contains(&i) {
+                        trace.repeated.push(i);
+                    }
+                    trace.log.push(format!("repeat reply {i}"));
+                    continue;
+                }
                 // an id nobody asked for: far away, or (every other time) the very id the next
                 // request of the session is going to get
                 let id = if w.arrival.first().is_some_and(|a| a % 2 == 1) {
@@ -545,6 +562,21 @@ pub fn run_world(w: &World) -> Result<Trace, String> {
             }
         }
     }
+    {
+        let st = wire.state.lock().unwrap();
+        let mut seen: BTreeSet<String> = BTreeSet::new();
+        let mut tasks: BTreeSet<usize> = BTreeSet::new();
+        for (task, msg) in &st.recv_log {
+            if let Some(id) = message_id_lenient(msg) {
+                if !seen.insert(id) {
+                    tasks.insert(*task);
+                }
+            }
+        }
+        trace.in_task_that_read_a_repeat = (0..n)
+            .map(|i| group_task.get(&group_ids[i]).is_some_and(|t| tasks.contains(t)))
+            .collect();
+    }
     let sh = shared.borrow();
     trace.results = sh.results.clone();
     for i in 0..n {
@@ -618,6 +650,16 @@ fn judge(w: &World, prop_id: &str, obs: &mut Obs) {
     }
     // the reply to a request whose send was reported as failed has no owner either
     let strays = !trace.stray_ids.is_empty() || trace.send_fault.iter().any(|f| *f == Some(true));
+    // a reader that takes the second copy of a reply off the transport fails (RequestComplete /
+    // MessageIdCollision on the unchanged tree) - tolerated like a reader meeting a stray, for
+    // every request awaited by the task that read it (which of a task's futures did the read is
+    // not observable). Every other request must get its reply - in particular the owner of the
+    // repeated id when somebody else read the second copy
+    let repeats = !trace.repeated.is_empty();
+    if repeats {
+        obs.class("repeated-reply");
+    }
+    let met_repeat = |e: &str| e.contains("RequestComplete") || e.contains("MessageIdCollision");
     for f in trace.send_fault.iter().flatten() {
         obs.class(if *f { "send-fault:delivered" } else { "send-fault:not-delivered" });
     }
@@ -658,6 +700,18 @@ fn judge(w: &World, prop_id: &str, obs: &mut Obs) {
             Some(Err(e)) if strays && e.contains("RequestNotFound") => {
                 obs.class("reader-met-stray(tolerated)");
             }
+            Some(Err(e)) if repeats && met_repeat(e) && trace.in_task_that_read_a_repeat.get(i) == Some(&true) => {
+                obs.class("reader-met-repeated-reply(tolerated)");
+            }
+            Some(r) if repeats && trace.repeated.contains(&i) => {
+                obs.fail(
+                    "reply-lost-when-the-server-repeated-it",
+                    format!(
+                        "request {i} ({:?}): the server sent its reply twice and the caller got {r:?}, expected {:?}; trace: {:?}",
+                        w.ops[i], trace.expected[i], trace.log
+                    ),
+                );
+            }
             Some(Err(e)) if e.starts_with("send:") => {
                 obs.fail("send-failed", format!("request {i}: {e}"));
             }
@@ -687,11 +741,12 @@ fn judge(w: &World, prop_id: &str, obs: &mut Obs) {
     match (&trace.extra_result, &trace.extra_expected) {
         (Some(r), Some(e)) if r == e => {}
         (Some(Err(e)), _) if strays && e.contains("RequestNotFound") => {}
+        (Some(Err(e)), _) if repeats && met_repeat(e) => {}
         (r, _) => {
             // only judged when every earlier reply was consumed or parked; a leftover reply in the
             // transport (owner dropped / failed on a stray) is read first by the extra request's
             // reader and parked or rejected according to the documented rules
-            let leftover_possible = strays || trace.dropped.iter().any(|d| *d);
+            let leftover_possible = strays || repeats || trace.dropped.iter().any(|d| *d);
             if !leftover_possible || r.is_none() {
                 obs.fail(
                     if r.is_none() {
@@ -748,10 +803,11 @@ fn world_strategy(max_n: usize, drops: bool, sched_len: usize) -> BoxedStrategy<
                 ],
                 prop::bool::weighted(0.3),
                 prop::option::weighted(0.08, 0u8..6),
+                any::<bool>(),
             )
         })
         .prop_map(
-            |(ops, arrival, groups, sequential, strays, gate_closes, drops, schedule, send_faults, slow_flush, big_reply)| World {
+            |(ops, arrival, groups, sequential, strays, gate_closes, drops, schedule, send_faults, slow_flush, big_reply, repeat_strays)| World {
                 ops,
                 arrival,
                 groups,
@@ -763,6 +819,7 @@ fn world_strategy(max_n: usize, drops: bool, sched_len: usize) -> BoxedStrategy<
                 send_faults,
                 slow_flush,
                 big_reply,
+                repeat_strays,
             },
         )
         .boxed()
@@ -778,7 +835,7 @@ impl Prop for C05 {
     fn rule(&self) -> String {
         "worlds of 1..6 pipelined requests (get-config with tagged data, lock answered ok or with a \
          tagged rpc-error) x arrival permutation x placement of the reply futures (one task each / \
-         grouped and joined / grouped and awaited sequentially) x up to 2 stray replies x up to 2 \
+         grouped and joined / grouped and awaited sequentially) x up to 2 stray replies (unknown id, the next request's id, or a repeat of the reply released last) x up to 2 \
          closures of the send gate x a generated schedule (each step picks among: poll a woken \
          task, release the next reply, inject a stray, let one pending send through); after the schedule \
          the world is drained fairly and one further request is issued. Non-trivial = at least 2 \
@@ -807,6 +864,7 @@ fn assumptions() -> Vec<String> {
         "single OS thread: every poll-level interleaving is reachable, races inside tokio::sync::Mutex itself are not (tokio's mutex is trusted)".into(),
         "requests are issued by one task (Session::rpc takes &mut self); reply futures are awaited anywhere".into(),
         "a reader that meets a stray reply may fail with RequestNotFound (tolerated); only delivery of foreign content is a violation".into(),
+            "in half of the worlds with strays the stray is a repeat of the reply released last (a server that answers twice): the requests of the task that took the second copy off the transport may fail with RequestComplete / MessageIdCollision (tolerated); every other request - in particular the owner of the repeated id - must get its reply".into(),
     ]
 }
 
